@@ -98,7 +98,7 @@ def BSt.appendRune (s : BSt) (r : Rn) : Option BSt :=
     else some { s with tb := s.tb.finishToken }
   | .single =>
     if s.wildcard then none                                                  -- "only single wildcard is allowed"
-    else some { s with data := s.data ++ [r.cp] }
+    else some { s with data := s.data ++ [if s.tb.cs then r.cp else r.lower] }
 
 def BSt.appendWildcard (s : BSt) : Option BSt :=
   match s.kind with
@@ -168,27 +168,27 @@ def startsWithQuote : List Rn → Bool
   | [] => false
 
 /-- `parseRangeTerm(term)` -/
-def legacyRangeTerm (rs : List Rn) : PRes (Term × List Rn) :=
+def legacyRangeTerm (cs : Bool) (rs : List Rn) : PRes (Term × List Rn) :=
   let quoted : Bool := startsWithQuote rs
-  (if quoted then parseQuotedTerms (newBuilder .single true) rs else parseTerms (newBuilder .single true) rs).bind fun p =>
+  (if quoted then parseQuotedTerms (newBuilder .single cs) rs else parseTerms (newBuilder .single cs) rs).bind fun p =>
     let term := p.1.getTerm
     if term.data.isEmpty && !quoted then eofOrUnexpected p.2
     else .ok (term, p.2)
 
 /-- `parseRange(r)`; the current rune is `[` or `{` (otherwise `panic("range start not found")`) -/
-def legacyRange (field : List Nat) : List Rn → PRes (Leaf × List Rn)
+def legacyRange (field : List Nat) (cs : Bool) : List Rn → PRes (Leaf × List Rn)
   | [] => .panic
   | r :: rest =>
     if r.cp ≠ 91 ∧ r.cp ≠ 123 then .panic
     else
-      (legacyRangeTerm (skipSpaces rest)).bind fun p1 =>
+      (legacyRangeTerm cs (skipSpaces rest)).bind fun p1 =>
         let to := simpleTerm p1.2
         if !foldEq to.1 [116, 111] then                 -- "to"
           (match to.2 with
            | [] => .err                                 -- errorEOF
            | _ :: _ => if to.1.isEmpty then errUnexpected p1.2 else .err)
         else
-          (legacyRangeTerm to.2).bind fun p2 =>
+          (legacyRangeTerm cs to.2).bind fun p2 =>
             match p2.2 with
             | [] => .err                                -- errorEOF("closing bracket")
             | c :: rest2 =>
@@ -197,12 +197,12 @@ def legacyRange (field : List Nat) : List Rn → PRes (Leaf × List Rn)
               else errUnexpected (c :: rest2)
 
 /-- `parseLiteral(fieldName, indexType)`: the tokens (a range, or literals) -/
-def legacyLiteral (dp : Bool) (csConf : Bool) (field : List Nat) (t : FT) : List Rn → PRes (List Leaf × List Rn)
+def legacyLiteral (dp rl : Bool) (csConf : Bool) (field : List Nat) (t : FT) : List Rn → PRes (List Leaf × List Rn)
   | [] => .err                                          -- errorEOF("search term")
   | r :: rest =>
     let cs := if field = tokenExists then true else csConf
     if r.cp = 91 ∨ r.cp = 123 then
-      (legacyRange field (r :: rest)).bind fun p => .ok ([p.1], p.2)
+      (legacyRange field (if rl then cs else true) (r :: rest)).bind fun p => .ok ([p.1], p.2)
     else
       let kind : Option BKind := match t with
         | .text => some .text
@@ -225,11 +225,11 @@ def legacyLiteral (dp : Bool) (csConf : Bool) (field : List Nat) (t : FT) : List
             else .ok (toks.map (Leaf.lit field), p.2)
 
 /-- `parseTokenQuery(fieldName, indexType)` -/
-def legacyTokenQuery (dp : Bool) (csConf : Bool) (field : List Nat) (t : FT) : List Rn → PRes (List Leaf × List Rn)
+def legacyTokenQuery (dp rl : Bool) (csConf : Bool) (field : List Nat) (t : FT) : List Rn → PRes (List Leaf × List Rn)
   | [] => .err
   | r :: rest =>
     if r.cp ≠ 58 then errUnexpected (r :: rest)
-    else legacyLiteral dp csConf field t (skipSpaces rest)
+    else legacyLiteral dp rl csConf field t (skipSpaces rest)
 
 /-- `buildAndTree(tokens)`: `tokens[0]` on an empty slice is an index-out-of-range panic -/
 def legacyAndTree : List Leaf → PRes (Ast Leaf)
@@ -291,7 +291,7 @@ def lgrSub (c : Cfg) (mx : Option Nat) : Nat → List Rn → Nat → Nat → PRe
           let field := wordBytes w.1
           let t := indexType c.mapping field
           if t = .noop then .err
-          else (legacyTokenQuery c.dp c.cs field t w.2).bind fun p => (legacyAndTree p.1).bind fun a => .ok (a, p.2)
+          else (legacyTokenQuery c.dp c.rangeLower c.cs field t w.2).bind fun p => (legacyAndTree p.1).bind fun a => .ok (a, p.2)
 termination_by structural f _ _ _ => f
 end
 
@@ -300,14 +300,14 @@ def parseQueryRunes (c : Cfg) (mx : Option Nat) (rs : List Rn) : PRes (Ast Leaf)
   (lgrExpr c mx (2 * rs.length + 2) (skipSpaces rs) 0 0).bind fun p => .ok (finish p.1)
 
 /-- `ParseAggregationFilter(data)`: `none` for an empty filter -/
-def parseAggFilter (dp cs : Bool) (rs : List Rn) : PRes (Option Leaf) :=
+def parseAggFilter (dp rl cs : Bool) (rs : List Rn) : PRes (Option Leaf) :=
   match skipSpaces rs with
   | [] => .ok none
   | r :: rest =>
     let w := simpleTerm (r :: rest)
     if w.1.isEmpty then errUnexpected w.2
     else
-      (legacyTokenQuery dp cs (wordBytes w.1) .keyword w.2).bind fun p =>
+      (legacyTokenQuery dp rl cs (wordBytes w.1) .keyword w.2).bind fun p =>
         match p.2, p.1 with
         | [], [.lit f ts] => .ok (some (.lit f ts))
         | _, _ => .err
